@@ -51,8 +51,8 @@ const preBase = `(declare-sort Ref 0)
 (declare-sort Str 0)
 (declare-fun slen (Str) Int)
 (declare-fun sat (Str Int) Int)
-(declare-fun substr (Str Int Int) Str)
-(declare-fun concat (Str Str) Str)
+(declare-fun ssub (Str Int Int) Str)
+(declare-fun sconcat (Str Str) Str)
 (declare-const str_empty Str)
 (declare-fun dyntype (Ref) Int)
 (declare-fun fmtU (Int) Str)
@@ -60,6 +60,7 @@ const preBase = `(declare-sort Ref 0)
 (declare-fun parseU_val (Str) Int)
 (declare-fun parseI_ok (Str) Bool)
 (declare-fun parseI_val (Str) Int)
+(declare-fun ringidx (Int Int Int) Int)
 `
 
 type axiomGroup struct {
@@ -68,24 +69,26 @@ type axiomGroup struct {
 }
 
 var axiomGroups = []axiomGroup{
+	{[]string{"(ringidx "}, `(assert (forall ((h Int) (l Int) (k Int)) (! (= (ringidx h l k) (ite (< (+ h k) l) (+ h k) (- (+ h k) l))) :pattern ((ringidx h l k)))))
+`},
 	{[]string{"slen", "str_empty", "(sat "}, `(assert (= (slen str_empty) 0))
 (assert (forall ((s Str)) (! (>= (slen s) 0) :pattern ((slen s)))))
 (assert (forall ((s Str)) (! (=> (= (slen s) 0) (= s str_empty)) :pattern ((slen s)))))
 `},
 	{[]string{"(sat "}, `(assert (forall ((s Str) (i Int)) (! (and (<= 0 (sat s i)) (< (sat s i) 256)) :pattern ((sat s i)))))
 `},
-	{[]string{"(substr "}, `(assert (forall ((s Str) (a Int) (b Int)) (! (=> (and (<= 0 a) (<= a b) (<= b (slen s))) (= (slen (substr s a b)) (- b a))) :pattern ((substr s a b)))))
-(assert (forall ((s Str) (a Int) (b Int) (i Int)) (! (=> (and (<= 0 a) (<= a b) (<= b (slen s)) (<= 0 i) (< i (- b a))) (= (sat (substr s a b) i) (sat s (+ a i)))) :pattern ((sat (substr s a b) i)))))
-(assert (forall ((s Str)) (! (= (substr s 0 (slen s)) s) :pattern ((substr s 0 (slen s))))))
-(assert (forall ((s Str) (a Int) (b Int) (c Int) (d Int)) (! (=> (and (<= 0 a) (<= a b) (<= b (slen s)) (<= 0 c) (<= c d) (<= d (- b a))) (= (substr (substr s a b) c d) (substr s (+ a c) (+ a d)))) :pattern ((substr (substr s a b) c d)))))
+	{[]string{"(ssub "}, `(assert (forall ((s Str) (a Int) (b Int)) (! (=> (and (<= 0 a) (<= a b) (<= b (slen s))) (= (slen (ssub s a b)) (- b a))) :pattern ((ssub s a b)))))
+(assert (forall ((s Str) (a Int) (b Int) (i Int)) (! (=> (and (<= 0 a) (<= a b) (<= b (slen s)) (<= 0 i) (< i (- b a))) (= (sat (ssub s a b) i) (sat s (+ a i)))) :pattern ((sat (ssub s a b) i)))))
+(assert (forall ((s Str)) (! (= (ssub s 0 (slen s)) s) :pattern ((ssub s 0 (slen s))))))
+(assert (forall ((s Str) (a Int) (b Int) (c Int) (d Int)) (! (=> (and (<= 0 a) (<= a b) (<= b (slen s)) (<= 0 c) (<= c d) (<= d (- b a))) (= (ssub (ssub s a b) c d) (ssub s (+ a c) (+ a d)))) :pattern ((ssub (ssub s a b) c d)))))
 `},
-	{[]string{"(concat "}, `(assert (forall ((a Str) (b Str)) (! (= (slen (concat a b)) (+ (slen a) (slen b))) :pattern ((concat a b)))))
-(assert (forall ((a Str) (b Str) (i Int)) (! (=> (and (<= 0 i) (< i (+ (slen a) (slen b)))) (= (sat (concat a b) i) (ite (< i (slen a)) (sat a i) (sat b (- i (slen a)))))) :pattern ((sat (concat a b) i)))))
+	{[]string{"(sconcat "}, `(assert (forall ((a Str) (b Str)) (! (= (slen (sconcat a b)) (+ (slen a) (slen b))) :pattern ((sconcat a b)))))
+(assert (forall ((a Str) (b Str) (i Int)) (! (=> (and (<= 0 i) (< i (+ (slen a) (slen b)))) (= (sat (sconcat a b) i) (ite (< i (slen a)) (sat a i) (sat b (- i (slen a)))))) :pattern ((sat (sconcat a b) i)))))
 `},
 	{[]string{"(fmtU ", "(parseU_"}, `(assert (forall ((n Int)) (! (=> (and (<= 0 n) (< n 18446744073709551616)) (and (parseU_ok (fmtU n)) (= (parseU_val (fmtU n)) n))) :pattern ((fmtU n)))))
 (assert (forall ((s Str)) (! (=> (parseU_ok s) (and (<= 0 (parseU_val s)) (< (parseU_val s) 18446744073709551616) (> (slen s) 0))) :pattern ((parseU_ok s)))))
-(assert (forall ((n Int) (m Int)) (! (=> (and (<= 0 n) (<= 0 m) (= (fmtU n) (fmtU m))) (= n m)) :pattern ((fmtU n) (fmtU m)))))
 (assert (forall ((n Int)) (! (> (slen (fmtU n)) 0) :pattern ((fmtU n)))))
+(assert (forall ((n Int) (i Int)) (! (=> (and (<= 0 i) (< i (slen (fmtU n)))) (and (<= 48 (sat (fmtU n) i)) (<= (sat (fmtU n) i) 57))) :pattern ((sat (fmtU n) i)))))
 `},
 }
 
